@@ -527,6 +527,7 @@ type T struct {
 	refDraws []any
 	mu       sync.RWMutex
 	failed   stopTest
+	skipping atomic.Bool  // (*T).skip was called (as opposed to a generator running out of data)
 	skipped  *invalidData // skip requested by a cleanup function
 	parent   *T           // set for T passed to Custom generator function
 }
@@ -685,10 +686,14 @@ func (t *T) cleanup() {
 // runCleanup calls a cleanup function. A skip requested by it is honored when the test case ends,
 // but must not replace a failure (panic) which is already in flight.
 func (t *T) runCleanup(cleanup func()) {
+	t.skipping.Store(false)
+
 	defer func() {
 		if r := recover(); r != nil {
 			skip, ok := r.(invalidData)
-			if !ok {
+			if !ok || (t.parent != nil && !t.skipping.Load()) {
+				// a generator which ran out of data inside a cleanup function of a Custom generator function
+				// rejects the attempt (its groups are left unfinished), it is not a skip request
 				panic(r)
 			}
 
@@ -806,6 +811,7 @@ func (t *T) Failed() bool {
 }
 
 func (t *T) skip(msg string) {
+	t.skipping.Store(true)
 	panic(invalidData(msg))
 }
 
